@@ -1467,7 +1467,9 @@ package engine
 //@   nosafety
 //@   bind added, cerr = compile#1
 //@   assume-call preserves vm.procedures
-//@   at-call dynamic#2 requires[merges-the-stored-clauses-with-the-compiled-ones] a1 == added
+//@   at-call dynamic#2 requires[merges-the-stored-clauses-with-the-compiled-ones] a1 == added && cerr == nil
+//@   ensures[a-clause-that-does-not-compile-is-an-error] called(cerr) && cerr != nil ==> result == cerr
+//@   ensures[nothing-is-stored-without-compiling] result == nil ==> called(cerr) && cerr == nil
 //@   ensures[a-failed-assert-changes-no-procedure] result != nil ==> forall q procedureIndicator :: has(vm.procedures, q) == old(has(vm.procedures, q))
 
 //@ func clauses.call$1
@@ -1611,7 +1613,7 @@ package engine
 //@   property C11
 //@   nosafety
 //@   bind c, cerr = renamedCopy#1
-//@   at-call renamedCopy requires[a-copy-of-the-template-as-instantiated-by-this-solution] a0 == template && a2 == env
+//@   at-call renamedCopy requires[a-copy-of-the-template-as-instantiated-by-this-solution] a0 == template && a2 == param(0)
 //@   at-call append requires[answers-are-kept-in-solution-order] a0 == answers && len(a1) == 1 && a1[0] == c
 //@   ensures[asks-for-the-next-solution] cerr == nil ==> result == falsePromise
 
